@@ -41,6 +41,10 @@ def encoders(rng):
         "ints_equal_as_bool": mk({0: 2, 1: 3}),
         "bools": mk({0: False, 1: True}),
         "floats": mk({0: 0.5, 1: 2.25}),
+        # distinct labels that are numerically close: only equality may matter, not closeness
+        "floats_adjacent": mk({0: 1.0, 1: float(np.nextafter(1.0, 2.0))}),
+        "floats_large_close": mk({0: 1.0e6, 1: 1.0e6 + 1.0}),
+        "float32_close": mk({0: np.float32(7.0), 1: np.float32(7.00001)}),
         "np_int64": mk({0: np.int64(4), 1: np.int64(9)}),
         "np_float32": mk({0: np.float32(1.5), 1: np.float32(-1.5)}),
         "np_str": mk({0: np.str_("a"), 1: np.str_("b")}),
